@@ -23,8 +23,7 @@ ASSUMPTIONS = ['one thread per Parser (ParserQueue adds the lock)']
 
 def r05_1(ctx):
     parsershape.check_tokenizer_feed(ctx, 'R05.1')
-    parsershape.check_parser_feeds(ctx, 'R05.1')
-    parsershape.check_decode(ctx, 'R05.1')
+    parsershape.parser_semantics(ctx, 'R05.1')
 
 
 def r05_2(ctx):
@@ -46,64 +45,122 @@ def r05_4(ctx):
 
 
 def r05_5(ctx):
-    parsershape.check_retrieval(ctx, 'R05.5')
-    m = ctx.p.module(parsershape.PAR)
-    pa = m.functions.get('parse_all')
-    pr = m.functions.get('parse')
-    if pa is not None:
-        ctx.fn(pa)
-        rets = [n for n in astq.walk_shallow(pa.node) if isinstance(n, ast.Return)]
-        ok = len(rets) == 1 and unparse(rets[0].value) == f'list(Parser({pa.params()[0]}))'
-        ctx.require(ok, 'R05.5', 'parse_all', ctx.where(pa), 'parse_all is not list(Parser(data))', construct=f'{pa.qname}::shape')
-    if pr is not None:
-        ctx.fn(pr)
-        rets = [n for n in astq.walk_shallow(pr.node) if isinstance(n, ast.Return)]
-        ok = len(rets) == 1 and unparse(rets[0].value) == f'Parser({pr.params()[0]}).get_message()'
-        ctx.require(ok, 'R05.5', 'parse', ctx.where(pr), 'parse is not Parser(data).get_message()', construct=f'{pr.qname}::shape')
+    parsershape.check_tokenizer_iter(ctx, 'R05.5')
 
 
 def r05_6(ctx):
+    """ParserQueue, abstractly interpreted: put_bytes on a stream cut in two, with a direct put in between, leaves the queue
+    holding exactly the messages of the stream in order (poll / iterpoll hand them out first-in first-out, then None); and every
+    step that runs parser or tokenizer code happens while the one lock made by __init__ is held."""
+    from .. import portmodel as pm, smf, wire
+    from ..absint import AbsRaise, AList, AObj, EVENT_LOG
+    from ..fold import ClassRef
     try:
         cls = ctx.p.cls('mido.backends._parser_queue', 'ParserQueue')
     except AnalysisError:
         ctx.floor('R05.6', 0, 1)
         return
-    pb = cls.methods.get('put_bytes')
-    if pb is None:
-        raise AnalysisError('ParserQueue.put_bytes not found')
-    ctx.fn(pb)
-    w = ctx.where(pb)
-    withs = [n for n in astq.walk_shallow(pb.node) if isinstance(n, ast.With)]
-    lock_with = [x for x in withs if any(unparse(i.context_expr) == 'self._parser_lock' for i in x.items)]
-    uses = [n for n in astq.walk_shallow(pb.node) if isinstance(n, ast.Attribute) and n.attr == '_parser'
-            and isinstance(n.value, ast.Name) and n.value.id == 'self']
-    inside = lock_with and all(any(astq.contains_node(x, u) for x in lock_with) for u in uses)
-    ctx.require(bool(inside) and len(uses) >= 2, 'R05.6', 'put_bytes.lock', w,
-                'the parser is fed or drained outside the `with self._parser_lock` region', construct=f'{pb.qname}::lock')
-    if lock_with:
-        body = lock_with[0].body
-        feed_first = body and isinstance(body[0], ast.Expr) and unparse(body[0].value) == f'self._parser.feed({pb.params()[1]})'
-        drain = len(body) >= 2 and isinstance(body[1], ast.For) and unparse(body[1].iter) == 'self._parser' and \
-            len(body[1].body) == 1 and isinstance(body[1].body[0], ast.Expr) and \
-            unparse(body[1].body[0].value) in (f'self.put({unparse(body[1].target)})', f'self._queue.put({unparse(body[1].target)})')
-        ctx.require(bool(feed_first and drain) and len(body) == 2, 'R05.6', 'put_bytes.shape', w,
-                    'put_bytes is not "feed the bytes, then put every parsed message, in order" inside the lock',
-                    construct=f'{pb.qname}::shape')
-    # _parser touched nowhere else
-    for name, fn in cls.methods.items():
-        if name in ('__init__', 'put_bytes'):
+    w = f'{cls.module.relpath}:{cls.node.lineno} ParserQueue'
+    ai = smf.make_interp(ctx)
+    ai.summaries['threading.RLock'] = lambda i, a, k, n: pm.AMock('RLock')
+    ai.summaries['threading.Lock'] = lambda i, a, k, n: pm.AMock('Lock')
+
+    def q_get(interp, base, args, kwargs, node):
+        if not base.items:
+            raise AbsRaise('queue.Empty', node)
+        return base.items.pop(0)
+
+    def q_block(interp, base, args, kwargs, node):
+        if not base.items:
+            raise AbsRaise('NonTermination', node)
+        return base.items.pop(0)
+
+    def mk_queue(interp, args, kwargs, node):
+        q = pm.AMock('Queue', {'put': lambda i, b, a, k, n: b.items.append(a[0]), 'put_nowait': lambda i, b, a, k, n: b.items.append(a[0]),
+                               'get_nowait': q_get, 'get': q_block, 'qsize': lambda i, b, a, k, n: len(b.items),
+                               'empty': lambda i, b, a, k, n: not b.items, 'strict': True})
+        q.items = []
+        return q
+    for name in ('queue.Queue', 'queue.SimpleQueue'):
+        ai.summaries[name] = mk_queue
+
+    def mock_hook(interp, base, name, args, kwargs, node):
+        if isinstance(base, pm.AMock):
+            if base.script.get('strict') and name not in base.script:
+                raise AbsRaise('AttributeError', node, implicit=True)
+            f = base.script.get(name)
+            return f(interp, base, args, kwargs, node) if f is not None else None
+        return pm._NO
+    ai.method_hooks.append(mock_hook)
+    n1, v1, n2, v2, d0, d1 = (smf.sym(x, 127) for x in ('n1', 'v1', 'n2', 'v2', 'd0', 'd1'))
+    stream = [0x93, n1, v1, 0xf8, 0x85, n2, v2, 0xf0, d0, d1, 0xf7, 0x40, 0xc1]
+    want = [('note_on', {'channel': 3, 'note': n1, 'velocity': v1}), ('clock', {}), ('start', {}),
+            ('note_off', {'channel': 5, 'note': n2, 'velocity': v2}), ('sysex', {'data': AList([d0, d1], 'tuple')})]
+
+    def call(obj, name, *args):
+        o, fn = ctx.p.lookup_method(obj.cls, name)
+        if fn is None:
+            raise AnalysisError(f'ParserQueue.{name} not found')
+        ctx.fn(fn)
+        return ai.consume(ai.call_function(fn, [obj] + list(args), {}))
+
+    def same(msg, exp):
+        if not isinstance(msg, AObj) or msg.attrs.get('type') != exp[0]:
+            return False
+        return all(wire.value_equal(msg.attrs.get(k), v) for k, v in exp[1].items())
+
+    for cut in (5, 1, 9):
+        holder = {}
+
+        def thunk():
+            pq = ai.apply(ClassRef(cls), [], {}, None)
+            holder['pq'] = pq
+            holder['t0'] = len(EVENT_LOG)
+            call(pq, 'put_bytes', AList(stream[:cut], 'list'))
+            call(pq, 'put', wire.make_message(ctx, 'start', {}, 0))
+            call(pq, 'put_bytes', AList(stream[cut:], 'list'))
+            holder['log'] = list(EVENT_LOG[holder['t0']:])
+            first = call(pq, 'poll')
+            rest = call(pq, 'iterpoll')
+            last = call(pq, 'poll')
+            return first, rest, last
+        outs = ai.explore(thunk)
+        inst = f'put_bytes(stream[:{cut}]); put(start); put_bytes(stream[{cut}:]); poll; iterpoll; poll'
+        if len(outs) != 1 or outs[0].kind != 'return':
+            ctx.fail('R05.6', inst, w, f'the scenario does not complete on one path: {outs}', construct=f'{cls.qname}::scenario::outcomes')
             continue
-        for n in astq.walk_shallow(fn.node):
-            if isinstance(n, ast.Attribute) and n.attr == '_parser':
-                ctx.fail('R05.6', f'{name}._parser', ctx.where(fn, n), 'the parser is used outside put_bytes (no lock)',
-                         construct=f'{fn.qname}::uses-parser')
-    init = cls.methods.get('__init__')
-    if init is not None:
-        ctx.fn(init)
-        txt = {unparse(t): unparse(st.value) for t, st in astq.stores_in(init.node) if isinstance(st, ast.Assign)}
-        ctx.require(txt.get('self._parser') == 'Parser()' and 'Lock()' in txt.get('self._parser_lock', ''), 'R05.6',
-                    'ParserQueue.__init__', ctx.where(init), f'fields initialised as {txt}', construct=f'{init.qname}::fields')
-    ctx.floor('R05.6', 1, 1)
+        first, rest, last = outs[0].value
+        got = [first] + (list(rest.items) if isinstance(rest, AList) else [rest])
+        parsed = [want[0], want[1], want[3], want[4]]
+        k = sum(1 for end in (2, 3, 6, 10) if end < cut)     # messages complete within stream[:cut]
+        exp = parsed[:k] + [want[2]] + parsed[k:]
+        ok = len(got) == len(exp) and all(same(a, b) for a, b in zip(got, exp)) and last is None
+        ctx.require(ok, 'R05.6', inst, w, f'the queue hands out {got!r} and then {last!r}; expected {[x[0] for x in exp]} and then None',
+                    construct=f'{cls.qname}::contents')
+        # lock discipline over the event log of the two put_bytes calls
+        pq = holder['pq']
+        locks = [v for v in pq.attrs.values() if isinstance(v, pm.AMock) and v.name in ('RLock', 'Lock')]
+        held = []
+        bad = None
+        touches = 0
+        for ev in holder['log']:
+            if ev[0] == 'with-enter':
+                held.append(ev[1])
+            elif ev[0] == 'with-exit':
+                if held:
+                    held.pop()
+            elif ev[0] in ('enter', 'resume', 'store'):
+                obj = ev[2] if ev[0] == 'enter' else ev[1]
+                if isinstance(obj, AObj) and obj.cls is not None and obj.cls.module.name in (parsershape.PAR, parsershape.TOK):
+                    touches += 1
+                    if not any(h is lk for h in held for lk in locks) and bad is None:
+                        bad = ev
+        ctx.require(bad is None and touches >= 4 and len(locks) == 1, 'R05.6', f'lock[{inst}]', w,
+                    f'parser/tokenizer code runs without the lock created by __init__ being held (event {bad!r:.200}; {touches} parser steps, '
+                    f'{len(locks)} lock fields)', construct=f'{cls.qname}::put_bytes::lock')
+    for q in ai.inlined:
+        ctx.functions.add(q)
+    ctx.floor('R05.6', 3, 3)
 
 
 RULES = [('R05.1', r05_1), ('R05.2', r05_2), ('R05.3', r05_3), ('R05.4', r05_4), ('R05.5', r05_5), ('R05.6', r05_6)]
